@@ -3,7 +3,9 @@ package vapp
 import (
 	"encoding/hex"
 	"fmt"
+	"strings"
 
+	"github.com/Oneledger/protocol/vm"
 	abci "github.com/tendermint/tendermint/abci/types"
 )
 
@@ -29,11 +31,52 @@ type Cmd struct {
 }
 
 type TxResult struct {
-	Code      uint32 `json:"code"`
-	Data      string `json:"data"`
-	GasUsed   int64  `json:"gas_used"`
-	GasWanted int64  `json:"gas_wanted"`
-	Log       string `json:"log,omitempty"`
+	Code      uint32    `json:"code"`
+	Data      string    `json:"data"`
+	GasUsed   int64     `json:"gas_used"`
+	GasWanted int64     `json:"gas_wanted"`
+	Log       string    `json:"log,omitempty"`
+	Olvm      *OlvmInfo `json:"olvm,omitempty"` // what the OLVM handler reported in its events (deliver only)
+}
+
+// OlvmInfo is read from the "olvm" / "olvm.logs" events of a delivered OLVM transaction.
+type OlvmInfo struct {
+	Status   string    `json:"status"`   // "1" executed successfully, "0" executed and failed (revert, out of gas, ...), "" no status tag
+	Error    string    `json:"error"`    // tx.error
+	Contract string    `json:"contract"` // hex address of the created contract
+	Logs     []OlvmLog `json:"logs"`
+}
+type OlvmLog struct {
+	Address string `json:"address"`
+	Data    string `json:"data"`
+}
+
+func olvmInfo(evs []abci.Event) *OlvmInfo {
+	var info *OlvmInfo
+	for _, e := range evs {
+		if e.Type != "olvm" && e.Type != "olvm.logs" {
+			continue
+		}
+		if info == nil {
+			info = &OlvmInfo{Logs: []OlvmLog{}}
+		}
+		for _, a := range e.Attributes {
+			k := string(a.Key)
+			switch {
+			case k == "tx.status":
+				info.Status = string(a.Value)
+			case k == "tx.error":
+				info.Error = string(a.Value)
+			case k == "tx.contract":
+				info.Contract = hex.EncodeToString(a.Value)
+			case strings.HasPrefix(k, "tx.logs."):
+				if l, err := new(vm.RLPLog).Decode(a.Value); err == nil {
+					info.Logs = append(info.Logs, OlvmLog{Address: hex.EncodeToString(l.Address.Bytes()), Data: hex.EncodeToString(l.Data)})
+				}
+			}
+		}
+	}
+	return info
 }
 
 type Update struct {
@@ -156,6 +199,7 @@ func (w *Worker) Handle(c *Cmd) (rep *Reply) {
 		w.curTxs = append(w.curTxs, c.Tx)
 		w.curRes = append(w.curRes, r)
 		t := txres(r.Code, r.Data, r.GasUsed, r.GasWanted, r.Log)
+		t.Olvm = olvmInfo(r.Events)
 		rep.Tx = &t
 	case "end":
 		res := w.R.EndBlock(c.H)
@@ -238,7 +282,9 @@ func (w *Worker) runBlock(c *Cmd, rep *Reply) {
 		r := w.R.DeliverTx(t)
 		w.curTxs = append(w.curTxs, t)
 		w.curRes = append(w.curRes, r)
-		rep.Txs = append(rep.Txs, txres(r.Code, r.Data, r.GasUsed, r.GasWanted, r.Log))
+		tr := txres(r.Code, r.Data, r.GasUsed, r.GasWanted, r.Log)
+		tr.Olvm = olvmInfo(r.Events)
+		rep.Txs = append(rep.Txs, tr)
 		if c.StopAfter == fmt.Sprintf("deliver:%d", i) {
 			rep.Stopped = c.StopAfter
 			return
